@@ -394,7 +394,8 @@ def bounded_set_algebra(tier, seed):
     def view(c):
         return frozenset(p for p in probes if p in c)
     maxlen = 2 if tier == 'quick' else 3
-    charsets = [''.join(t) for k in range(1, maxlen + 1) for t in itertools.product(atoms, repeat=k)]
+    charsets = [''.join(t) for k in range(1, maxlen + 1) for t in itertools.product(atoms, repeat=k)
+                if k < 3 or not any(x in ('\\w', '\\W') for x in t)]       # \w sets are large: triples with them would take tens of minutes
     for cs in charsets:
         parts = [cs[i:i + 2] if cs[i] == '\\' else cs[i] for i in range(len(cs)) if not (i and cs[i - 1] == '\\')]
         want = frozenset().union(*[atom_view(p) for p in parts])
